@@ -549,8 +549,29 @@ func isFailureReturn(ret *ssa.Return) bool {
 	if ei < 0 || ei >= len(ret.Results) {
 		return false
 	}
-	v := ret.Results[ei]
-	return definitelyNonNilError(v, ret.Block())
+	return definitelyNonNilError(retResult(ret, ei), ret.Block())
+}
+
+// retResult returns the value returned at result index i, looking through the result
+// spill cells go/ssa introduces in functions with defers (*cell = v; rundefers; t = *cell;
+// return t).
+func retResult(ret *ssa.Return, i int) ssa.Value {
+	v := ret.Results[i]
+	ld, ok := v.(*ssa.UnOp)
+	if !ok || ld.Op != token.MUL {
+		return v
+	}
+	cell, ok := ld.X.(*ssa.Alloc)
+	if !ok {
+		return v
+	}
+	instrs := ret.Block().Instrs
+	for k := len(instrs) - 1; k >= 0; k-- {
+		if st, ok := instrs[k].(*ssa.Store); ok && st.Addr == cell {
+			return st.Val
+		}
+	}
+	return v
 }
 
 func definitelyNonNilError(v ssa.Value, at *ssa.BasicBlock) bool {
@@ -593,6 +614,10 @@ func definitelyNonNilError(v ssa.Value, at *ssa.BasicBlock) bool {
 
 // sameValue compares SSA values modulo loads of the same local cell.
 func sameValue(a, b ssa.Value) bool {
+	if a == nil || b == nil {
+		return false
+	}
+	a, b = stripConv(a), stripConv(b)
 	if a == b {
 		return true
 	}
